@@ -38,7 +38,7 @@ type Pools struct {
 	TagNames []string
 }
 
-var topSegs = []string{"assets", "expenses", "petty cash", "income", "liabilities", "equity", "Assets", "Expenses", "misc", "x", "активы", "projects"}
+var topSegs = []string{"assets", "expenses", "petty cash", "checking", "income", "liabilities", "equity", "Assets", "Expenses", "misc", "x", "активы", "projects"}
 var subSegs = []string{"cash", "food", "bank checking", "card1", "чек", "наличные", "opening balances", "Salary", "a", "B2", "y😀z", "rent", "café", "long account segment name"}
 var symPool = []string{"$", "€", "EUR", "USD", "AAPL", "AB C", "ACME Inc.", "£", "🍎 X", "ЕВРО"}
 var payeePool = []string{"shop", "Whole Foods", "café", "Ашан", "grocery store", "x", "landlord", "bakery 😀"}
